@@ -42,7 +42,7 @@ def main(argv):
     if c.replay:
         rc = subprocess.call([exe, "replay=" + c.replay])
         sys.exit(1 if rc == 1 else (0 if rc == 0 else 2))
-    fams = [("scoping", list(fm.scoping()) + list(fm.scoping2()) + list(fm.path_scope()) + list(fm.version_scope())), ("forms", list(fm.forms()) + list(fm.phonycycle_err())),
+    fams = [("scoping", list(fm.scoping()) + list(fm.scoping2()) + list(fm.path_scope()) + list(fm.version_scope()) + list(fm.rule_shadowing())), ("forms", list(fm.forms()) + list(fm.phonycycle_err())),
             ("lexical", list(fm.lexical(3 if c.tier == "quick" else 4))),
             ("mutations", list(fm.mutations(fm.mutation_bases())))]
     os.makedirs(os.path.join(vbuild.BUILD, "scen"), exist_ok=True)
